@@ -10,7 +10,9 @@ RULE = ("streams of 1-3 pipelined requests from an obfuscating HTTP grammar gene
         "independent strict RFC 9112 reader (body bytes, end offset, listed must-reject classes). "
         "non-trivial = stream has a framing header or >=2 requests AND (gunicorn yielded a request with a "
         "non-empty body or a pipelined successor, or the reference returned a listed reject class); "
-        "distinct by sha1 of the case")
+        "plus a worker-level slice (engine W): conforming keep-alive pipelines served by real sync/gthread/gevent/eventlet worker objects "
+        "while the application reads all / some / nothing of each body: the (method, target) sequence handed to the application equals "
+        "the reference reading and no error page is produced. distinct by sha1 of the case")
 ASSUMPTIONS = [
     "documented-unsafe parser modes (permit_obsolete_folding, strip_header_spaces, header_map=dangerous, "
     "permit_unconventional_http_*, casefold_http_method) stay off",
@@ -43,7 +45,66 @@ def cfg_for(i):
     return _cfg_cache[i]
 
 
+@st.composite
+def _worker_case(draw):
+    """engine W: a conforming keep-alive pipeline through a real worker object; the application reads all / some / nothing of each body"""
+    n = draw(st.integers(2, 3))
+    reqs = [draw(gen_http.conforming_request(with_body=draw(st.sampled_from([True, True, False])), version="HTTP/1.1")) for _ in range(n)]
+    return {"engine": "W", "kind": draw(st.sampled_from(["gthread", "gevent", "eventlet", "sync"])),
+            "stream": "".join(r["raw"] for r in reqs), "read_input": draw(st.sampled_from(["none", "none", "some", "line", "all"])),
+            "cuts": draw(st.lists(st.integers(1, 300), max_size=3))}
+
+
 def strategy(tier):
+    return st.one_of(_parser_case(tier), _parser_case(tier), _parser_case(tier), _parser_case(tier), _worker_case())
+
+
+def run_worker(case):
+    """requests handed to the application by a real worker (handle() on a scripted socket) = the reference reading of the stream,
+    whatever the application did with the bodies; a conforming pipeline is never answered with an error page"""
+    from vlib import wenv, ref_response
+    stream = case["stream"].encode("latin-1")
+    refs = []
+    pos = 0
+    while pos < len(stream):
+        r = ref_request.parse_request(stream, pos)
+        if r.kind != "ok":
+            return Outcome([], False, ["engine:W", "inconclusive:reference-does-not-accept-the-generated-pipeline:" + r.kind])
+        refs.append(r)
+        pos = r.end
+    kind = case["kind"]
+    if b";x=" + b"e" * 8000 in stream:
+        # a chunk extension longer than the server's cap on a chunk-size line (8190 bytes) is legitimately refused
+        return Outcome([], False, ["engine:W", "inconclusive:chunk-extension-above-the-size-line-cap"])
+    prog = {"status": "200 OK", "headers": [["Content-Length", "2"]], "mode": "list", "chunks": ["ok"], "read_input": case["read_input"]}
+    app = wenv.AppProgram(prog)
+    env = wenv.Env(kind, wenv.make_cfg(keepalive=2, worker_connections=10, threads=2), app)
+    cuts = sorted(set(c for c in case.get("cuts", []) if 0 < c < len(stream)))
+    segs = [stream[a:b] for a, b in zip([0] + cuts, cuts + [len(stream)])]
+    sock = wenv.FakeSocket(segs)
+    escaped = env.serve(sock)
+    vio = []
+    wire = sock.received()
+    got = [(c["environ"].get("REQUEST_METHOD"), c["environ"].get("RAW_URI")) for c in app.calls]
+    want = [(r.method.decode("latin-1"), r.target.decode("latin-1")) for r in refs]
+    # sync serves one request per connection; gthread leaves a pipelined request that is already in the parser's buffer unserved
+    # (C13's open finding): for these two only the first request is demanded, the others must still be the right ones if served
+    expect_n = 1 if kind in ("sync", "gthread") else len(want)
+    if escaped is not None:
+        vio.append(Violation("no-escape", "C01/worker:exception-escaped-handle:" + type(escaped).__name__, observed=repr(escaped)))
+    elif got != want[:len(got)]:
+        vio.append(Violation("requests-handed-over", "C01/worker:application-got-another-request-sequence:" + kind,
+                             observed={"got": got, "read_input": case["read_input"], "wire": wire[:300]}, expected=want))
+    elif len(got) < expect_n or b"HTTP/1.1 4" in wire or b"HTTP/1.1 5" in wire:
+        vio.append(Violation("requests-handed-over", "C01/worker:conforming-pipeline-not-served:" + kind,
+                             observed={"calls": len(got), "of": expect_n, "read_input": case["read_input"], "wire_tail": wire[-300:]},
+                             expected="every request of the pipeline handed to the application, no error page"))
+    bodies = sum(1 for r in refs if r.body)
+    return Outcome(vio, bodies > 0 and kind != "sync", ["engine:W", "kind:" + kind, "read:" + case["read_input"], "requests:%d" % len(refs)],
+                   sample={"case": {k: case[k] for k in ("kind", "read_input")}, "requests": want, "calls": len(got)})
+
+
+def _parser_case(tier):
     return st.fixed_dictionaries({
         "stream": gen_http.stream(obfuscate=True),
         "cfg": st.sampled_from([0, 0, 0, 1, 2, 3, 4, 5, 5, 6]),
@@ -55,6 +116,8 @@ def strategy(tier):
 
 
 def run_case(case):
+    if case.get("engine") == "W":
+        return run_worker(case)
     stream = case["stream"].encode("latin-1")
     cfg = cfg_for(case.get("cfg", 0))
     cuts = [case["cut"]] if case.get("cut") else []
